@@ -44,6 +44,14 @@ pub mod kjson {
             Value::Object(o) => J::Obj(o.iter().map(|(k, v)| (k.clone(), from_value(v))).collect()),
         }
     }
+    /// the same JSON value, every object listing its members in the opposite order
+    pub fn reverse_members(j: &J) -> J {
+        match j {
+            J::Arr(a) => J::Arr(a.iter().map(reverse_members).collect()),
+            J::Obj(o) => J::Obj(o.iter().rev().map(|(k, v)| (k.clone(), reverse_members(v))).collect()),
+            x => x.clone(),
+        }
+    }
     pub fn to_value(j: &J) -> Value {
         match j {
             J::Null => Value::Null,
